@@ -27,6 +27,26 @@ Proof. exact (context_json_roundtrip c). Qed.
 Theorem c12_stable c : jcontext_ok c ->
   exists j c', context_to_json c = Ok j /\ context_from_json j = Ok c' /\ context_to_json c' = Ok j.
 Proof. exact (context_json_stable c). Qed.
+(* fragmentation rules are outside the round trip (jrule_ok excludes them): RuleDescriptor.__json__ raises NotImplementedError on
+   such a rule whatever its id and descriptors; __from_json_object__ raises NotImplementedError on every object whose 'nature' is
+   neither 'compression' nor 'no-compression', so no loaded rule is a fragmentation rule; a context holding a fragmentation
+   rule (after rules that serialise) is not serialisable *)
+Theorem c12_fragmentation_to_json r : jr_nature r = Fragmentation -> rule_to_json r = Exc NotImplementedError.
+Proof. exact (rule_to_json_fragmentation r). Qed.
+Theorem c12_fragmentation_from_json j v : jget j K_nature = Ok v ->
+  v <> JNature Compression -> v <> JNature NoCompression -> rule_from_json j = Exc NotImplementedError.
+Proof. exact (rule_from_json_fragmentation j v). Qed.
+Theorem c12_loaded_not_fragmentation j r : rule_from_json j = Ok r -> jr_nature r <> Fragmentation.
+Proof. exact (rule_from_json_not_fragmentation j r). Qed.
+Theorem c12_fragmentation_context c pre r post :
+  jc_rules c = pre ++ r :: post -> Forall jrule_ok pre -> jr_nature r = Fragmentation ->
+  context_to_json c = Exc NotImplementedError.
+Proof. exact (context_to_json_fragmentation c pre r post). Qed.
+Example c12_fragmentation_ex :
+  let b := mkbuf [192] 3 RIGHT 5 in
+  rule_to_json (mkjrule b Fragmentation []) = Exc NotImplementedError /\
+  rule_from_json (JObj [(K_id, buf_to_json b); (K_nature, JNature Fragmentation)]) = Exc NotImplementedError.
+Proof. vm_compute. split; reflexivity. Qed.
 
 (* non-vacuity: a right-padded non byte-aligned buffer and a match-mapping / value-sent descriptor *)
 Example c12_ex :
@@ -43,3 +63,7 @@ Print Assumptions c12_rfd.
 Print Assumptions c12_rule.
 Print Assumptions c12_context.
 Print Assumptions c12_stable.
+Print Assumptions c12_fragmentation_to_json.
+Print Assumptions c12_fragmentation_from_json.
+Print Assumptions c12_loaded_not_fragmentation.
+Print Assumptions c12_fragmentation_context.
